@@ -362,6 +362,11 @@ def _dns_pool():
         from mitmproxy.net.dns import https_records
         pool.append(msg(questions=[Q("svc.example", dns.types.HTTPS, dns.classes.IN)],
                         answers=[RR.HTTPS("svc.example", https_records.HTTPSRecord(1, "svc.example", {https_records.SVCParamKeys.ALPN.value: b"\x02h2", https_records.SVCParamKeys.PORT.value: b"\x01\xbb"}))]))
+        # SvcPriority is an unsigned 16-bit field (RFC 9460 section 2.2): values >= 32768 must survive the round trip too
+        base = https_records.pack(https_records.HTTPSRecord(1, "svc.example", {https_records.SVCParamKeys.ALPN.value: b"\x02h3"}))
+        for prio in (32768, 40000, 65535):
+            pool.append(msg(questions=[Q("svc.example", dns.types.HTTPS, dns.classes.IN)],
+                            answers=[RR("svc.example", dns.types.HTTPS, dns.classes.IN, 60, prio.to_bytes(2, "big") + base[2:])]))
     except Exception:
         pass
     return pool
